@@ -687,8 +687,23 @@ async fn fetch_page(t: &Target<'_>, off: u64, max: Option<u32>) -> Result<PageRe
     }
 }
 
-/// One page against the stored bytes. Returns (bytes returned, content compared exactly,
-/// boundary cut a character of otherwise valid text).
+/// Some(length of the valid prefix) when the stored bytes are UTF-8 text, possibly ending inside
+/// a character (a prefix cut by the cap); None for binary output.
+fn text_len(stored: &[u8]) -> Option<usize> {
+    match std::str::from_utf8(stored) {
+        Ok(_) => Some(stored.len()),
+        Err(e) if e.error_len().is_none() => Some(e.valid_up_to()),
+        Err(_) => None,
+    }
+}
+
+/// `pos` is a character boundary of text whose valid prefix is `vp` bytes long
+fn on_boundary(stored: &[u8], vp: usize, pos: usize) -> bool {
+    pos >= stored.len() || pos == vp || (pos < vp && (stored[pos] as i8) >= -0x40)
+}
+
+/// One page against the stored bytes. Returns the number of bytes the page covers and whether
+/// its content was compared exactly.
 fn check_one_page(
     rep: &mut CaseReport,
     strict: Strict,
@@ -697,9 +712,12 @@ fn check_one_page(
     off: u64,
     max: u64,
     r: &PageResp,
-) -> u64 {
+) -> (u64, bool) {
     let len = stored.len() as u64;
     let want = max.min(len.saturating_sub(off));
+    let got = r.bytes;
+    let o = off.min(len) as usize;
+    let tl = text_len(stored);
     let ctx = json!({"offset": off, "max_bytes": max, "stored_len": len,
         "got": {"offset": r.offset, "bytes": r.bytes, "total": r.total, "truncated": r.truncated, "content": clip(&r.content)}});
     if r.offset != off {
@@ -708,43 +726,73 @@ fn check_one_page(
     if r.total != len {
         rep.fail(format!("page_meta|{op}|total_bytes_not_stored_length"), ctx.clone());
     }
-    if r.bytes != want {
-        rep.fail(format!("page_bytes|{op}|bytes_not_min_of_max_and_remaining"), ctx.clone());
-        return r.bytes;
+    if got != want {
+        // a reader may move the end of a page to a character boundary (back off, or add the
+        // <= 3 bytes completing the character); any other count is wrong
+        let legit = match tl {
+            Some(vp) => {
+                off + got <= len
+                    && got.abs_diff(want) <= 3
+                    && on_boundary(stored, vp, o)
+                    && !on_boundary(stored, vp, o + want as usize)
+                    && on_boundary(stored, vp, o + got as usize)
+            }
+            // binary output: a boundary-seeking reader cannot tell text from bytes; the same
+            // slack is accepted as long as the page stays inside the stored output
+            None => off + got <= len && got.abs_diff(want) <= 3 && (off + want < len || got > want),
+        };
+        if !legit {
+            rep.fail(format!("page_bytes|{op}|bytes_not_min_of_max_and_remaining"), ctx.clone());
+            return (got, false);
+        }
+        rep.count("pages_end_moved_to_char_boundary", 1);
     }
-    if r.truncated != (off + want < len) {
+    if r.truncated != (off + got < len) {
         rep.fail(format!("page_meta|{op}|truncated_flag"), ctx.clone());
     }
-    let slice = &stored[(off.min(len)) as usize..(off.min(len) + want) as usize];
+    let slice = &stored[o..o + got as usize];
     rep.count("pages_checked", 1);
-    match std::str::from_utf8(slice) {
-        Ok(text) => {
-            rep.count("pages_text_exact", 1);
-            if r.content != text {
-                rep.fail(
-                    format!("page_content|{op}|differs_from_stored_text"),
-                    json!({"ctx": ctx, "want": clip(text)}),
-                );
-            }
-        }
-        Err(_) => {
-            if is_utf8(stored) {
-                // the stored output is valid text; only the page boundaries cut a character
-                rep.class("page:split_char");
-                if strict.split {
-                    let sig = if op == "task_output" { SIG_SPLIT_TASK } else { SIG_SPLIT_FETCH };
-                    rep.fail(sig, json!({"ctx": ctx, "want_bytes": slice.len(),
-                        "why": "a character cut by the page boundary is returned as U+FFFD; the page's `bytes` does not back off to the boundary, so the next page starts inside the character too"}));
-                } else {
-                    rep.count("excluded_known_split_char_page", 1);
-                }
-            } else {
-                // binary: `content` is a JSON string and cannot carry the bytes; byte counts only
-                rep.count("pages_binary_counts_only", 1);
-            }
-        }
+    let Some(vp) = tl else {
+        // binary: `content` is a JSON string and cannot carry the bytes; byte counts only
+        rep.count("pages_binary_counts_only", 1);
+        return (got, false);
+    };
+    if !on_boundary(stored, vp, o) {
+        // the requested offset lies inside a character (a random-access choice of the client, or
+        // the consequence of the previous page's end in a walk): nothing exact can be returned
+        rep.class("page:starts_inside_char");
+        rep.count("pages_start_inside_char", 1);
+        return (got, false);
     }
-    want
+    if !on_boundary(stored, vp, o + got as usize) {
+        rep.class("page:split_char");
+        if strict.split {
+            let sig = if op == "task_output" { SIG_SPLIT_TASK } else { SIG_SPLIT_FETCH };
+            rep.fail(sig, json!({"ctx": ctx, "page_bytes": slice.len(),
+                "why": "the page ends inside a multi-byte character of valid text: it is returned as U+FFFD and `bytes` does not back off to the character boundary, so the next page (offset + bytes) starts inside the character too"}));
+        } else {
+            rep.count("excluded_known_split_char_page", 1);
+        }
+        return (got, false);
+    }
+    // both ends on character boundaries (the very end of a cap-cut prefix may hold a partial
+    // character: it can only come back as U+FFFD)
+    let text_end = (o + got as usize).min(vp).max(o);
+    let text = std::str::from_utf8(&stored[o..text_end]).unwrap_or("");
+    let partial_tail = text_end < o + got as usize;
+    let ok = if partial_tail {
+        r.content.starts_with(text) && r.content[text.len()..].chars().all(|c| c == '\u{fffd}')
+    } else {
+        r.content == text
+    };
+    rep.count("pages_text_exact", 1);
+    if !ok {
+        rep.fail(
+            format!("page_content|{op}|differs_from_stored_text"),
+            json!({"ctx": ctx, "want": clip(text)}),
+        );
+    }
+    (got, !partial_tail)
 }
 
 async fn run_pages(rep: &mut CaseReport, strict: Strict, t: &Target<'_>, stored: &[u8], pages: &[Page], stream_idx: u8) {
@@ -759,7 +807,7 @@ async fn run_pages(rep: &mut CaseReport, strict: Strict, t: &Target<'_>, stored:
                 let mut i = 0usize;
                 let mut sum = 0u64;
                 loop {
-                    let max = if i < 48 { sizes[i % sizes.len().max(1)] } else { PAGE_MAX };
+                    let max = if i < 48 && !sizes.is_empty() { sizes[i % sizes.len()] } else { PAGE_MAX };
                     let r = match fetch_page(t, off, Some(max)).await {
                         Ok(r) => r,
                         Err(e) => {
@@ -768,13 +816,23 @@ async fn run_pages(rep: &mut CaseReport, strict: Strict, t: &Target<'_>, stored:
                         }
                     };
                     let before = rep.fails.len();
-                    let got = check_one_page(rep, strict, op, stored, off, max as u64, &r);
+                    let (got, exact) = check_one_page(rep, strict, op, stored, off, max as u64, &r);
                     if rep.fails.len() != before {
                         return;
                     }
-                    let slice_ok = is_utf8(&stored[off as usize..(off + got) as usize]);
-                    all_exact &= slice_ok;
+                    all_exact &= exact || got == 0;
                     text.push_str(&r.content);
+                    if got == 0 && max > 0 && off < stored.len() as u64 {
+                        // a reader that backs off to a character boundary cannot advance with a
+                        // page smaller than the character: not a defect for max_bytes < 4
+                        if max < 4 {
+                            rep.count("page_walk_stuck_on_tiny_page", 1);
+                            i = i.max(48);
+                            continue;
+                        }
+                        rep.fail(format!("page_progress|{op}|no_bytes_before_end_of_stored_output"), json!({"offset": off, "max_bytes": max}));
+                        return;
+                    }
                     off += got;
                     sum += got;
                     i += 1;
@@ -785,7 +843,7 @@ async fn run_pages(rep: &mut CaseReport, strict: Strict, t: &Target<'_>, stored:
                 if sum != stored.len() as u64 {
                     rep.fail(format!("page_sum|{op}|pages_do_not_cover_stored_output"), json!({"sum": sum, "stored": stored.len()}));
                 }
-                if all_exact && is_utf8(stored) && text.as_bytes() != stored {
+                if all_exact && text.as_bytes() != stored {
                     rep.fail(format!("page_concat|{op}|concatenated_pages_differ_from_stored_text"),
                         json!({"first_diff": first_diff(text.as_bytes(), stored)}));
                 }
@@ -796,7 +854,7 @@ async fn run_pages(rep: &mut CaseReport, strict: Strict, t: &Target<'_>, stored:
                 let o = pick(*off, stored.len() + 3) as u64;
                 match fetch_page(t, o, Some(*max)).await {
                     Ok(r) => {
-                        check_one_page(rep, strict, op, stored, o, *max as u64, &r);
+                        let _ = check_one_page(rep, strict, op, stored, o, *max as u64, &r);
                     }
                     Err(e) => rep.fail(format!("page_error|{op}|random_access_read_failed"), json!({"offset": o, "max_bytes": max, "error": e})),
                 }
@@ -808,7 +866,7 @@ async fn run_pages(rep: &mut CaseReport, strict: Strict, t: &Target<'_>, stored:
                         // default max_bytes = configured preview limit (512 KiB) >= anything stored here
                         // except the rare > 512 KiB outputs: compare against the answer's own count
                         let max = if (stored.len() as u64) <= 512 * 1024 { 512 * 1024 } else { r.bytes };
-                        check_one_page(rep, strict, op, stored, 0, max, &r);
+                        let _ = check_one_page(rep, strict, op, stored, 0, max, &r);
                     }
                     Err(e) => rep.fail(format!("page_error|{op}|default_read_failed"), json!({"error": e})),
                 }
@@ -1690,7 +1748,7 @@ fn main() {
     check.assume("tasks: per-call caps are passed as args.max_bytes / args.artifact_max_bytes (accepted by create_task); foreground tool: max_bytes per call, the artifact cap only through BuiltinToolConfig.artifact_max_bytes (the tool has no per-call cap argument)");
     check.assume("rejected spawns: docs/03_tool_tasks.md only says 'spawn accepted/rejected' is a logged transition; unsupported tool must answer 400 and log nothing (server.rs create_task, server_tests), invalid args must end in a lone terminal `failed` status; whether a spawn frame precedes it is classified, not asserted. Whether a cwd is acceptable is C13's subject (shape only)");
     check.assume("a delta frame's preview must be a prefix (lossy-decoded, within min(max_bytes, 8 KiB)) of the bytes of its read, and the whole read when it fits; a preview may show bytes the cap kept out of the artifact (the statement's 'prefix of it' is read as 'of what the process wrote')");
-    check.assume("page `content` is a JSON string: it is compared exactly when the page's byte range is valid UTF-8; for binary output only byte counts / offsets / totals are compared; a range that cuts a character of otherwise valid text is the known finding K2");
+    check.assume("page `content` is a JSON string: it is compared exactly when the stored output is UTF-8 text (possibly a cap-cut prefix ending in a partial character) and the page starts and ends on character boundaries; a page that starts inside a character (client-chosen offset) is only counted; a page whose END cuts a character is the known finding K2; for binary output only byte counts / offsets / totals are compared. `bytes` must be min(max_bytes, remaining), except that a reader may move the end of a page by <= 3 bytes to a character boundary (so a repaired reader is not flagged)");
     check.assume("foreground preview is compared line-wise as the frames carry it (one tool_stdout/tool_stderr frame per line): chunks joined with \\n must equal the lossy-decoded first min(total, max_bytes) bytes (or up to the last character boundary before the limit) minus one final newline, carriage returns ignored on both sides; for invalid UTF-8 previews U+FFFD is ignored on both sides");
     check.assume("the SSE join may lose a frame (publish-before-record, C06/F10): lifecycle verdicts use the raw truth log; SSE frames must equal the logged frame of the same seq, missing ones are counted");
     check.assume("stored bytes are read after the terminal frame AND the task snapshot exist (tool: after the call returned); a mismatch is re-read after 200 ms and then polled for up to 10 s: equal at some point = transient (counted as transient_mismatch, never a failure), still different after 10 s = violation");
